@@ -363,8 +363,11 @@ def call_matrix(c, s, blk, kw, parallel, use_c, use_mp):
     common = dict(block=blk, compact=c["compact"], only_triu=c["only_triu"], parallel=parallel)
     if entry == "fast" and use_c:
         k2 = {k: v for k, v in kw.items() if k != "use_ndim"}
-        if c["ndim"]:
+        if c["ndim"] and not use_mp:
             return dtw_ndim.distance_matrix_fast(s, **{k: v for k, v in k2.items() if k != "use_pruning"}, **common)
+        if c["ndim"]:
+            # dtw_ndim.distance_matrix_fast has no use_mp parameter: the multiprocessing layer goes through the generic entry
+            return dtw.distance_matrix(s, use_c=use_c, use_mp=use_mp, **kw, **common)
         return dtw.distance_matrix_fast(s, use_mp=use_mp, **k2, **common)
     if entry == "ndim_module" and c["ndim"]:
         k2 = {k: v for k, v in kw.items() if k != "use_ndim"}
